@@ -101,6 +101,10 @@ pub fn pool() -> Vec<Lab> {
         Lab::Str("𝜑𝜑".into()),
         Lab::Greek('0'),
         Lab::Greek('+'),
+        // white space other than U+0020 is an ordinary character of a label
+        Lab::Str("x\u{a0}y".into()),
+        Lab::Str("a\tb".into()),
+        Lab::Greek('\u{3000}'),
     ];
     // enough distinct labels to fill a vertex with N = 16 and go one beyond
     for i in 0..10 {
